@@ -41,8 +41,11 @@ def configs(ctx):
         c = dict(base)
         c.update(kw)
         out.append((name, c, workers, forms))
-    add('1d-p2-n3-inf', ['mass', 'stiff', 'conv', 'load'], MarkCap=2)
+    add('1d-p2-n3-inf', ['mass', 'stiff', 'conv', 'wmass', 'load'], MarkCap=2)
     add('1d-p1-n2-L4-d1', ['mass', 'stiff', 'conv', 'load'], P1=1, N1=2, MaxLev=4, Disp=1, MaxCalls=3, MarkCap=1)
+    # three calls with single-cell marks: histories whose last call only ACTIVATES functions on an existing level below a
+    # finer one (replayed with queries between the calls)
+    add('1d-p1-n4-c3', ['mass'], P1=1, N1=4, MaxCalls=3, MarkCap=1, workers=6)
     add('2d-p12-2x2-inf', ['mass', 'conv'], D=2, P1=1, P2=2, N1=2, N2=2, MarkCap=1, workers=10)
     if ctx.thorough:
         add('1d-p3-n3-d1', ['mass', 'stiff', 'conv', 'wmass', 'load'], P1=3, Disp=1, MaxCalls=3, MarkCap=2, workers=4)
@@ -143,8 +146,9 @@ def check_state(ctx, name, consts, forms, gal, rp, n_state):
     bdvariants = [None, [], ['left'] if D == 1 else ['left', 'top']]
     bds = bdvariants[n_state % 3]
     for trunc in (False, True):
+        # every second state: the adaptive loop -- read-only queries (they fill the index caches) between the refine() calls
         hs, _, err = hs_util.replay_history(consts, hist, truncate=trunc, bdspecs=bds, truncflag=consts['TruncMark'],
-                                            integer_grid=True)
+                                            integer_grid=True, probes=n_state % 2 == 1 or name.endswith('-c3'))
         if err is not None:
             ctx.skip('refine raised (reported by C04)')
             return
@@ -180,18 +184,32 @@ def check_state(ctx, name, consts, forms, gal, rp, n_state):
                     outs = [('assemble', assemble.assemble(spec['expr'], hs, args=dict(args)).toarray())]
                     if spec['sym']:
                         outs.append(('assemble-symmetric', assemble.assemble(spec['expr'], hs, args=dict(args), symmetric=True).toarray()))
-                    if n_state % 4 == 0:
+                    if n_state % 4 == 0 or spec['field']:
                         from pyiga import vform
                         vf = vform.parse_vf(spec['expr'], kvs0, args=dict(args))
-                        outs.append(('HDiscretization.assemble_matrix', HDiscretization(hs, vf, dict(args)).assemble_matrix().toarray()))
+                        hd = HDiscretization(hs, vf, dict(args))
+                        if spec['field']:
+                            # a failing user callback in the first attempt, then the corrected arguments on the SAME object
+                            def boom(*X):
+                                raise FloatingPointError('coefficient callback failed')
+                            hd.asm_args = dict(args, **{spec['field']: boom})
+                            try:
+                                hd.assemble_matrix()
+                                outs.append(('failing-callback-not-propagated', None))
+                            except FloatingPointError:
+                                pass
+                            hd.asm_args = dict(args)
+                            outs.append(('HDiscretization.assemble_matrix-after-failed-attempt', hd.assemble_matrix().toarray()))
+                        else:
+                            outs.append(('HDiscretization.assemble_matrix', hd.assemble_matrix().toarray()))
             except Exception as ex:
                 ctx.violation('exception %s %s' % (type(ex).__name__, sig), {'error': repr(ex)})
                 continue
             scale = max(1.0, float(np.abs(exp).max()))
             for route, A in outs:
-                if A.shape != exp.shape or np.abs(A - exp).max() > 1e-10 * scale:
+                if A is None or A.shape != exp.shape or np.abs(A - exp).max() > 1e-10 * scale:
                     ctx.violation('mismatch route=%s %s' % (route, sig),
-                                  {'maxdiff': float(np.abs(A - exp).max()) if A.shape == exp.shape else 'shape',
+                                  {'maxdiff': float(np.abs(A - exp).max()) if A is not None and A.shape == exp.shape else 'shape',
                                    'numdofs': n, 'levels': lt + 1})
                     break
             ctx.case((name, key, form, trunc), nontrivial=lt >= 1,
@@ -216,7 +234,9 @@ def run(ctx):
 
     def one(item):
         name, consts, workers, forms = item
-        cfg = write_cfg(ctx.scratch / ('ha_%s.cfg' % name), consts, invariants=INVS, view='View')
+        # the '-c3' configuration is explored WITHOUT a view: every history (every order of the calls) is a state of its
+        # own and is replayed, not only one history per reachable space
+        cfg = write_cfg(ctx.scratch / ('ha_%s.cfg' % name), consts, invariants=INVS, view=None if name.endswith('-c3') else 'View')
         return name, consts, forms, ctx.tlc('HAssemble', cfg, workers=workers, timeout=3000)
     runs = [pool.submit(one, it) for it in todo]
     for f in pw:
